@@ -108,28 +108,28 @@ def parse (pat : Bytes) (o : Opts) : Option Result :=
             (let fr := fs.invertedFrameRange
              if fr.isEmpty then fs.setFrameSet none else (fs.setFrameRange fr).1)
           else fs
-        -- then index, then frame selection: re-parse the single path
+        -- then index, then frame selection: re-parse the single path — as repaired by the
+        -- D16 `fix:` commit a failing re-parse is reported as this pattern's error
         let reparse (path : Bytes) : Option Seq :=
           match Seq.parse st path with
           | .ok f => some (f.setFrameRange (itoa f.start)).1
-          | .error _ => none          -- (the Go code dereferences nil here: a crash)
-        let afterIndex : Option (Option Seq) :=
+          | .error _ => none
+        let afterIndex : Option Seq :=
           match o.index with
-          | none => some (some fs)
+          | none => some fs
           | some i =>
             let p := fs.index i
-            if p.isEmpty then some none else (reparse p).map some
+            if p.isEmpty then none else reparse p
         match afterIndex with
-        | none => none                 -- crash: outside the model
-        | some none => some (errResult pat)
-        | some (some fs) =>
+        | none => some (errResult pat)
+        | some fs =>
           let fs? : Option Seq := match o.frame with
             | none => some fs
             | some f => reparse (fs.frameInt f)
-          fs?.map fun fs =>
-            { orig := pat, error := false, str := fs.str, dir := fs.dir, base := fs.base,
-              range := fs.frameRange, pad := fs.pad, ext := fs.ext, start := fs.start, stop := fs.fin,
-              len := fs.len, zfill := fs.zfill, hasRange := fs.frameSet.isSome }
+          match fs? with
+          | none => some (errResult pat)
+          | some fs =>
+            some ({ orig := pat, error := false, str := fs.str, dir := fs.dir, base := fs.base, range := fs.frameRange, pad := fs.pad, ext := fs.ext, start := fs.start, stop := fs.fin, len := fs.len, zfill := fs.zfill, hasRange := fs.frameSet.isSome } : Result)
 
 /-- the results map: keyed by the original pattern, a later result for the same key replaces
     an earlier one -/
